@@ -72,6 +72,7 @@ pub fn command_text(kind: &str, bst: i64, list: &Value, tag: &str, marks: &str, 
         "group" => format!("{{ obs {tag}={bst} {marks}; }} {rs}"),
         "subshell" => format!("( obs {tag}={bst} {marks} ) {rs}"),
         "notfound" => format!("no_such_command_c09 {rs}"),
+        "external" => format!("/bin/true {rs}"),
         "empty" => rs.to_string(),
         "exec" => format!("exec {rs}"),
         other => panic!("unknown kind {other}"),
